@@ -176,7 +176,7 @@ var c02QuickSecond = []int{0, 1, 2, 3, 5, 6, 9, 11, 12, 14, 15, 20, 21, 23, 29}
 type c02Shape struct {
 	comb []int // 0 Where, 1 Or, 2 Not
 	unit []int
-	fin  int // 0 Find, 1 Count, 2 Update, 3 Delete, 4 Find with inline condition, 5 Find with model key
+	fin  int // 0 Find, 1 Count, 2 Update, 3 Delete, 4 Find with inline condition, 5 Find with model key, 6 Delete of a keyed value, 7 Delete with an inline key
 }
 
 func c02Shapes(tier int) []c02Shape {
@@ -184,7 +184,7 @@ func c02Shapes(tier int) []c02Shape {
 	nu := len(c02UnitNames)
 	for _, c1 := range []int{0, 2} {
 		for u1 := 0; u1 < nu; u1++ {
-			for fin := 0; fin <= 5; fin++ {
+			for fin := 0; fin <= 7; fin++ {
 				if tier == 0 && fin > 0 && u1 != 1 && u1 != 9 {
 					continue
 				}
@@ -299,7 +299,7 @@ func c02Describe(sh c02Shape) string {
 		}
 		s += []string{"Where", "Or", "Not"}[sh.comb[i]] + "(" + c02UnitNames[sh.unit[i]] + ")"
 	}
-	return s + []string{"", ".Count", ".Update", ".Delete", ".Find-inline", ".Find-key"}[sh.fin]
+	return s + []string{"", ".Count", ".Update", ".Delete", ".Find-inline", ".Find-key", ".Delete-keyed-value", ".Delete-inline-key"}[sh.fin]
 }
 
 func c02ShapesMemo(tier int) []c02Shape {
@@ -349,6 +349,15 @@ func H_C02_Chain(shape int) {
 		k := verifrt.Intn("key", 1, 1000)
 		out.ID = uint(k)
 		stmt = db.Find(&out).Statement
+		acc.and(colCmp(row, "id", "=", k))
+	case 6:
+		// the key of the deleted value is one more unit of the combination
+		k := verifrt.Intn("key", 1, 1000)
+		stmt = db.Delete(&T3{ID: uint(k)}).Statement
+		acc.and(colCmp(row, "id", "=", k))
+	case 7:
+		k := verifrt.Intn("key", 1, 1000)
+		stmt = db.Delete(&T3{}, k).Statement
 		acc.and(colCmp(row, "id", "=", k))
 	}
 	verifrt.Reach("built")
